@@ -37,6 +37,23 @@ Simp(r) ==
             [] rule = "cat_one_right" -> l
             [] rule = "cat_keep" -> <<"cat", l, rr>>
 
+(* one elimination step of gnfa_minimize on the labels dg (a function on pairs of the states Qg): every *)
+(* pair (i, j) of remaining states with i # accept, j # start gets simplify(R1.R2*.R3 + R4).  Shared by   *)
+(* the GnfaRip model's action and by the validation of observed rip traces (JTRACE).                     *)
+RipLabels(Qg, dg, q, qs, qa) ==
+  LET Q2 == Qg \ {q}
+      R2 == dg[<<q, q>>]
+  IN [pq \in DOMAIN dg |->
+        IF pq[1] \in Q2 \ {qa} /\ pq[2] \in Q2 \ {qs}
+        THEN Simp(<<"sum", <<"cat", dg[<<pq[1], q>>], <<"cat", <<"star", R2>>, dg[<<q, pq[2]>>]>>>>, dg[pq]>>)
+        ELSE dg[pq]]
+
+(* the symbols of a left-nested sum of symbols (the shape dfa_to_gnfa gives to parallel edges) *)
+RECURSIVE SumSyms(_)
+SumSyms(t) == IF t[1] = "sym" THEN <<t[2]>>
+              ELSE IF t[1] = "sum" /\ t[3][1] = "sym" THEN SumSyms(t[2]) \o <<t[3][2]>>
+              ELSE <<"?not-a-sum-of-symbols">>
+
 RootRule(r) == IF r[1] \in {"zero", "one", "sym"} THEN "leaf"
                ELSE RuleAt(r, Simp(r[2]), IF r[1] = "star" THEN Simp(r[2]) ELSE Simp(r[3]))
 
